@@ -134,6 +134,7 @@ def session_task(modules: list[str], ops: list[dict[str, Any]], sources: dict[st
 			return loaded[int(op['pick'] * len(loaded)) % len(loaded)]
 
 		emptied: set[str] = set()
+		partial: set[str] = set()
 		import time as _time
 		for n, op in enumerate(ops):
 			kind = op['op']
@@ -231,6 +232,36 @@ def session_task(modules: list[str], ops: list[dict[str, Any]], sources: dict[st
 					emptied.add(m)
 					ev['left'] = len(observers.symbols_dump(db, m))
 					ev['completed'] = db.completed(m)
+				elif kind == 'import-interrupted':
+					# the import of a module's rows dies after some of them were taken over (an exception out of the k-th deserialize: a damaged
+					# row, a keyboard interrupt, memory); the very same data imported again afterwards must still restore the module completely
+					blobs = exports.get(m)
+					if not blobs or m not in emptied:
+						ev['skipped'] = 'no export yet / module not away'
+					else:
+						data = json.loads(blobs[-1])
+						if len(data) < 3:
+							ev['skipped'] = 'fewer than 3 rows'
+						else:
+							k = max(1, min(len(data) - 1, int(op.get('frac', 0.5) * len(data))))
+							class Interrupting:
+								def __init__(self, inner: Any, left: int) -> None:
+									self.inner, self.left = inner, left
+								def serialize(self, symbol: Any) -> Any:
+									return self.inner.serialize(symbol)
+								def deserialize(self, db_: Any, row: Any) -> Any:
+									if self.left <= 0:
+										raise RuntimeError('injected: import interrupted')
+									self.left -= 1
+									return self.inner.deserialize(db_, row)
+							try:
+								db.import_json(Interrupting(ser, k), data)
+								ev['raised'] = False
+							except RuntimeError:
+								ev['raised'] = True
+							ev['rows_taken'] = len(observers.symbols_dump(db, m))
+							ev['of'] = len(data)
+							partial.add(m)
 				elif kind in ('import', 'import-old'):
 					blobs = exports.get(m)
 					if not blobs:
@@ -238,6 +269,8 @@ def session_task(modules: list[str], ops: list[dict[str, Any]], sources: dict[st
 					else:
 						blob = blobs[0] if kind == 'import-old' else blobs[-1]
 						before = observers.symbols_dump(db, m)
+						ev['was_partial'] = m in partial
+						partial.discard(m)
 						db.import_json(ser, json.loads(blob))
 						emptied.discard(m)
 						after = observers.symbols_dump(db, m)
@@ -330,7 +363,10 @@ def judge_session(case: dict[str, Any], rec: dict[str, Any]) -> dict[str, Any]:
 				violations.append({'class': 'unload-leaves-rows', 'detail': ev, 'known': None, 'sig': 'unload'})
 		elif ev['op'] in ('import', 'import-old'):
 			emptied.discard(ev['m'])
-			if ev.get('was_empty'):
+			if ev.get('was_partial'):
+				bump('probes', 'import completes a module whose earlier import was interrupted')
+				distinct.add(f"partial:{ev['m']}:{'>'.join(kinds[-4:])}")
+			elif ev.get('was_empty'):
 				bump('probes', 'import into a table holding only the other modules')
 				distinct.add(f"{ev['m']}:{res['sizes'].get(ev['m'])}:{'>'.join(kinds[-4:])}")
 			else:
@@ -343,6 +379,10 @@ def judge_session(case: dict[str, Any], rec: dict[str, Any]) -> dict[str, Any]:
 				violations.append({'class': 'imported-table-differs', 'detail': ev, 'known': None, 'sig': row_field_diff(d[0]) if d[0] else ''})
 			if not ev['completed']:
 				violations.append({'class': 'not-completed-after-import', 'detail': ev, 'known': None, 'sig': 'completed'})
+		elif ev['op'] == 'import-interrupted':
+			bump('faults_fired', 'import interrupted after some rows')
+			if not ev.get('raised'):
+				violations.append({'class': 'interrupted-import-not-reported', 'detail': ev, 'known': None, 'sig': 'interrupt'})
 		elif ev['op'] == 'edit-reload':
 			bump('faults_fired', 'schedule: source edited and module reloaded inside the session')
 			bump('probes', 'in-session edit changed the table' if ev.get('took_effect') else 'in-session edit left the table as it was')
@@ -422,6 +462,12 @@ class C14(Engine):
 				ops.append({'op': 'edit-reload', 'pick': (j + 0.5) / n, 'v': -1})
 			ops += round_trip()
 			cases.append({'engine': 'session', 'pool': pool, 'ops': ops, 'in_memory': True})
+		for which in (0, 1):
+			ops = []
+			for j in range(9):
+				p = (j + 0.5) / 9
+				ops += [{'op': 'export', 'pick': p}, {'op': 'module-unload' if j % 2 else 'db-unload', 'pick': p}, {'op': 'import-interrupted', 'pick': p, 'frac': (0.3, 0.6, 0.9)[j % 3]}, {'op': 'import', 'pick': p}, {'op': 'import', 'pick': p}]
+			cases.append({'engine': 'session', 'pool': pools.fixed_pool(which), 'ops': ops})
 		# byte-identical modules in two packages (same file stem, same imports: identical Module.identity): each keeps its own stored symbols
 		from tranpsim.c06 import TWIN_SRC
 		twin = pools.fixed_pool(2)
@@ -486,6 +532,8 @@ class C14(Engine):
 				ops.append({'op': 'module-unload', 'pick': p})
 			elif r < 0.79:
 				ops.append({'op': 'import', 'pick': p})
+			elif r < 0.82:
+				ops.append({'op': 'import-interrupted', 'pick': p, 'frac': round(rng.random(), 3)})
 			elif r < 0.85:
 				ops.append({'op': 'edit-reload', 'pick': rng.choice(picks + [round(rng.random(), 4)]), 'v': rng.randrange(4)})
 			elif r < 0.95 - w_short:
